@@ -4,6 +4,7 @@ import FlVerif.Lemmas.Antecedent
 import FlVerif.Lemmas.CodeLoadAnte
 import FlVerif.Lemmas.CodeDegree
 import FlVerif.Lemmas.CodeDegreeAggr
+import FlVerif.Lemmas.CodeWave5ZRuleLaw    -- `Proposition.__str__`, `Antecedent.prefix / infix / postfix`, `postfix_of_load`
 
 /-! # C06 — Rule antecedents mean what the rule grammar says
 
@@ -89,6 +90,53 @@ theorem code_aggregatedDegree (agg : Option (X ℚ → X ℚ → X ℚ)) (raw : 
     ∃ σ, Gen.Code.Aggregated_activation_degree.run agg (raw.map (fun a => (a.1, Op.Weighted.setDegree a.2))) t {} = .ok σ ∧
       σ.ret = some (aggregatedDegree (Op.Weighted.aggregationOr agg) (raw.map (fun a => (a.1.name, a.2))) t.name) :=
   Op.code_aggregatedDegree agg raw t
+
+/-! ## the texts of a loaded antecedent -/
+
+/-- **Tie A (code → model).**  `Proposition.__str__` on a proposition of the loader (`Py.Load.Proposition`: a hedge / term
+    object is its name): `variable is hedge* term`, the parts that are set, joined by single blanks. -/
+theorem code_propositionStr (p : Py.Load.Proposition) :
+    ∃ σ, Gen.Code.Proposition_str.run p {} = .ok σ ∧ σ.ret = some (AntecedentText.propText p) :=
+  CodeW5ZR.code_propositionStr p
+
+/-- **Tie A (code → model).**  `Antecedent.prefix(node)` on the tree `Antecedent.load` builds (`expression` is
+    `self.expression`, `node = .none` the call without argument): `RuntimeError` when nothing is loaded, otherwise the
+    operator name before its operands; an operand that is `None` contributes nothing.  The recursion bound is never
+    exhausted. -/
+theorem code_antecedentPrefix (expression node : Py.Load.Expression) :
+    match AntecedentText.render AntecedentText.pfxText expression node with
+    | .error k => Gen.Code.Antecedent_prefix.run expression node {} = .error k.toPy
+    | .ok s => ∃ σ, Gen.Code.Antecedent_prefix.run expression node {} = .ok σ ∧ σ.ret = some s :=
+  CodeW5ZR.code_antecedentPrefix expression node
+
+/-- **Tie A (code → model).**  `Antecedent.infix(node)`: the operator name between its operands (no parentheses are
+    written: the text of `(a or b) and c` reads `a or b and c`). -/
+theorem code_antecedentInfix (expression node : Py.Load.Expression) :
+    match AntecedentText.render AntecedentText.infText expression node with
+    | .error k => Gen.Code.Antecedent_infix.run expression node {} = .error k.toPy
+    | .ok s => ∃ σ, Gen.Code.Antecedent_infix.run expression node {} = .ok σ ∧ σ.ret = some s :=
+  CodeW5ZR.code_antecedentInfix expression node
+
+/-- **Tie A (code → model).**  `Antecedent.postfix(node)`: the operator name after its operands. -/
+theorem code_antecedentPostfix (expression node : Py.Load.Expression) :
+    match AntecedentText.render AntecedentText.postText expression node with
+    | .error k => Gen.Code.Antecedent_postfix.run expression node {} = .error k.toPy
+    | .ok s => ∃ σ, Gen.Code.Antecedent_postfix.run expression node {} = .ok σ ∧ σ.ret = some s :=
+  CodeW5ZR.code_antecedentPostfix expression node
+
+/-- the state machine of `Antecedent.load` keeps the tokens: the postfix form of the tree it builds is the token list -/
+theorem load_keeps_postfix (e : EngineInfo) (pf : List String) (a : ANode) (h : antecedentLoadPostfix e pf = .ok a) :
+    a.pfx = pf :=
+  CodeW5ZR.pfx_of_load e pf a h
+
+/-- **`Antecedent.postfix` of the expression loaded from a postfix text gives the text back, token for token.**  For
+    every engine, every token list `pf` that the state machine of `Antecedent.load` accepts and the expression object
+    `x` that the translated loader stores for it (`code_antecedentLoad`: `exprA x` is the tree of the model), the
+    translated `Antecedent.postfix()` returns `" ".join(pf)`. -/
+theorem postfix_of_load (e : EngineInfo) (pf : List String) (a : ANode) (x : Py.Load.Expression)
+    (hl : antecedentLoadPostfix e pf = .ok a) (hx : exprA x = some a) :
+    ∃ σ, Gen.Code.Antecedent_postfix.run x .none {} = .ok σ ∧ σ.ret = some (Py.joinSp pf) :=
+  CodeW5ZR.antecedent_postfix_of_load e pf a x hl hx
 
 /-! ## grammar: every writing of every antecedent loads to that antecedent -/
 
